@@ -388,9 +388,14 @@ def check(col, prog, tier, profile, fixture=None):
                 return False
 
             why = ""
+            v_none, v_some = [], []   # one verdict per path of each kind: all of them must hold
             for st in I.final_states:
+                okn = oks = False
                 r = util.ret_term(st)
                 stores = [e for e in st.event_list() if e.kind == "store" and e.place == selfp]
+                if not (r[0] == "agg" and r[1][3] in ("None", "Some")):
+                    v_some.append(False)
+                    why = "returns %s" % tstr(r)[:60]
                 if r[0] == "agg" and r[1][3] == "None":
                     if nm == "next_submask":
                         okn = (("eq", ("bin", "Eq", old, mk_int(0)), 1) in st.facts or any(f[0] == "eq" and f[1] == old and f[2] == 0 and not isinstance(f[2], bool) for f in st.facts) or zones.entails(st.facts, "Eq", old, mk_int(0), I.tys)) and not stores
@@ -416,6 +421,10 @@ def check(col, prog, tier, profile, fixture=None):
                         other = v[3] if v[2][0] == "call" else v[2]
                         oks = v[1] == bop and other == x and step[0] == "call" and str(step[1]).endswith("::" + wop) and step[2][0] == old and step[2][1] == mk_int(1) and r[2][0] == old
                         why = tstr(v)
+                    v_some.append(bool(oks))
+                if r[0] == "agg" and r[1][3] == "None":
+                    v_none.append(bool(okn))
+            okn, oks = bool(v_none) and all(v_none), bool(v_some) and all(v_some)
             key = "%s|shape" % fk(b)
             if okn and oks:
                 col.ok("I3", b.loc(), key, "None at the terminal mask; else step and return the previous value")
@@ -444,10 +453,13 @@ def check(col, prog, tier, profile, fixture=None):
         b = util.need_body(crate, "masks::%s" % fn)
         I = util.analyse(b)
         ok = False
+        v_chain = []
         for st in I.final_states:
+            ok = False
             r = util.ret_term(st)
             evs = [e for e in st.event_list() if e.kind == "call"]
             ch = [e for e in evs if e.extra.get("name") == "chain"]
+            v_chain.append(ok)
             if ch:
                 a0, a1 = ch[0].args
                 # the tail yields exactly the sentinel once: [sent()] or iter::once(sent()) / Some(sent())
@@ -460,6 +472,8 @@ def check(col, prog, tier, profile, fixture=None):
                 # the closure starts from x and steps against x
                 caps = a0[2][0][2] if a0[2] and a0[2][0][0] == "agg" else ()
                 ok = ok and all(c == ("param", 1, I.names.get(1)) for c in caps) and len(caps) == 2
+                v_chain[-1] = bool(ok)
+        ok = bool(v_chain) and all(v_chain)
         if not ok:
             ok = _chain_semantic(crate, b, sent, stepper)
         key = "%s|from_fn-chain-sentinel" % fk(b)
@@ -868,6 +882,7 @@ def _next_permutation_anatomy(col, crate):
             start = (lambda x: x) if j_t[0] == "phi" else (lambda x: ("bin", "Add", off_frame[0], x))
             scan_from_i = bool(ent) and all(x is not None and util.lin_equal(start(x), i_el) for x in ent)
             step_ok = False
+            v_step = []
             for bs in L.backedge_states.get(head, []):
                 nj = bs.env.get(jl)
                 gt = less(bs.facts, i_t, ("bin", "Add", j_t, mk_int(1)))
@@ -878,6 +893,8 @@ def _next_permutation_anatomy(col, crate):
                     inb = any(f[0] == "eq" and f[2] == 1 and isinstance(f[1], tuple) and f[1][0] == "bin" and f[1][1] == "Lt" and f[1][2] == ("bin", "Add", kphi, mk_int(1)) and isinstance(f[1][3], tuple) and f[1][3][0] == "len"
                               and any(x[0] == "slicefrom" and x[1] == datap and util.lin_equal(x[2], i_el) for x in subterms(f[1][3])) for f in bs.facts)
                 step_ok = nj == ("bin", "Add", kphi, mk_int(1)) and (gt or lt_rev) and inb
+                v_step.append(bool(step_ok))
+            step_ok = bool(v_step) and all(v_step)
             # ... and stops exactly there: on this (stepping) path the scan was left because j+1 == len or because
             # data[j+1] is not greater than the pivot (an index bounds check states j+1 < len too, so the loop test is
             # identified by its negation at the exit)
